@@ -178,6 +178,22 @@ func (w *c15World) vacuousAt(env *c15Env, pos token.Pos, vacuous []*c15Path) boo
 	return false
 }
 
+// errorExit: the loop was left early, but only with an error variable known to be non-nil (a guard `err == nil` of
+// the loop condition turned false, or a break controlled by `err != nil`), and from the exit every path ends in a
+// return that returns that variable: the early exit is an error exit, not a shortcut.
+func (w *c15World) errorExit(f *c15Fn, wk *c15Walk) bool {
+	a := wk.after
+	if a == nil || a.exitErr == nil || a.implicit || len(a.returns) == 0 {
+		return false
+	}
+	for _, ret := range a.returns {
+		if !w.retFails(f, ret, a.exitErr) {
+			return false
+		}
+	}
+	return true
+}
+
 func c15U5(r *core.R) {
 	w := c15NewWorld(r)
 	if w.pk == nil {
@@ -213,8 +229,8 @@ func c15U5(r *core.R) {
 			if site.loop.entry == nil {
 				continue
 			}
-			wk := w.walk(site.loop.entry, 0, c15WalkOpt{env: site.env, loop: site.loop})
-			if wk.done || wk.escape != nil {
+			wk := w.walk(site.loop.entry, 0, c15WalkOpt{env: site.env, loop: site.loop, oracle: &c15Oracle{w: w, loop: site.loop, lenv: site.env}, follow: true})
+			if wk.escape != nil || (wk.done && !w.errorExit(site.loop.fn, wk)) {
 				brk = &rt.sites[i]
 			}
 		}
